@@ -33,6 +33,7 @@ type Config struct {
 	M     int    `json:"m"`
 	Tasks int    `json:"tasks"`
 	Sched []int  `json:"sched"` // which runnable task is released at each scheduling point (modulo), then round-robin
+	Readv bool   `json:"readv,omitempty"` // the real NLSR readvertiser is attached to the RIB (it is called back inside RIB operations)
 }
 
 type Op struct {
@@ -63,6 +64,11 @@ func (Engine) Generate(prop string, r *kit.Rand, tier string) *kit.Scenario[Conf
 	if r.Chance(0.1) {
 		c.Tasks = r.Range(6, 8)
 	}
+	c.Readv = r.Chance(0.4)
+	origins := []uint64{0, 0, 128}
+	if c.Readv {
+		origins = []uint64{0, 65, 65, 128} // client routes are the ones that are readvertised
+	}
 	// a few sequential set-up operations run by task 0 first? No: everything is concurrent; task programs are short.
 	nops := r.Range(c.Tasks, c.Tasks*4)
 	if nops > 16 {
@@ -81,11 +87,11 @@ func (Engine) Generate(prop string, r *kit.Rand, tier string) *kit.Scenario[Conf
 		switch r.Weighted(weights) {
 		case 0:
 			o.Op, o.Name, o.Face, o.Cost = "reg", kit.Pick(r, ribNames), uint64(r.Range(1, 3)), uint64(r.Intn(3))
-			o.Origin = kit.Pick(r, []uint64{0, 0, 128})
+			o.Origin = kit.Pick(r, origins)
 			o.Flags = uint64(r.Weighted([]int{1, 6, 1, 1}))
 		case 1:
 			o.Op, o.Name, o.Face = "unreg", kit.Pick(r, ribNames), uint64(r.Range(1, 3))
-			o.Origin = kit.Pick(r, []uint64{0, 0, 128})
+			o.Origin = kit.Pick(r, origins)
 		case 2:
 			o.Op, o.Face = "teardown", uint64(r.Range(1, 3))
 		case 3:
@@ -102,7 +108,7 @@ func (Engine) Generate(prop string, r *kit.Rand, tier string) *kit.Scenario[Conf
 			o.Op = "list"
 		case 9:
 			o.Op, o.Name, o.Face, o.Cost = "mreg", kit.Pick(r, ribNames), uint64(r.Range(1, 3)), uint64(r.Intn(3))
-			o.Origin = kit.Pick(r, []uint64{0, 0, 128})
+			o.Origin = kit.Pick(r, origins)
 			o.Flags = uint64(r.Weighted([]int{1, 6, 1, 1}))
 		}
 		sc.Ops = append(sc.Ops, o)
@@ -142,6 +148,9 @@ func (Engine) Simplify(sc *kit.Scenario[Config, Op]) []*kit.Scenario[Config, Op]
 	}
 	if sc.Config.Fib != "nametree" {
 		modC(func(c *Config) { c.Fib = "nametree" })
+	}
+	if sc.Config.Readv {
+		modC(func(c *Config) { c.Readv = false })
 	}
 	// renumber tasks compactly
 	used := map[int]bool{}
@@ -582,6 +591,12 @@ func (e Engine) runOnce(t *testing.T, ctx *kit.Ctx, sc *kit.Scenario[Config, Op]
 	table.VerifResetGlobals()
 	table.CreateFIBTable(c.Fib)
 	face.VerifResetFaceTable()
+	drainReadv := func() [][]byte { return nil }
+	if c.Readv {
+		rv, drain := fwmgmt.VerifNlsrReadvertiser()
+		table.AddReadvertiser(rv)
+		drainReadv = drain
+	}
 	for id := uint64(1); id <= 3; id++ { // the scenario's faces exist (management checks that before it registers a route)
 		face.FaceTable.Add(face.MakeNullLinkService(face.MakeNullTransport()))
 	}
@@ -751,6 +766,9 @@ func (e Engine) runOnce(t *testing.T, ctx *kit.Ctx, sc *kit.Scenario[Config, Op]
 	parked := make([]string, ntask) // where each task is parked (its last yield tag)
 	selfHeld := make([]bool, ntask) // the task was seen taking a FIB lock it already holds
 	inBatch := make([]bool, ntask)  // between fib.batch and fib.batch-end: holds the FIB write lock
+	// readFP: the FIB's stored representation when the task was parked inside a read-locked section (tag fib.read).
+	// Until that task reports again nothing may change it: writers cannot get the lock, and readers must not write.
+	readFP := map[int]uint64{}
 	for i := range alive {
 		alive[i] = true
 	}
@@ -873,6 +891,26 @@ func (e Engine) runOnce(t *testing.T, ctx *kit.Ctx, sc *kit.Scenario[Config, Op]
 		}
 		step++
 		res.Steps++
+		if n := len(drainReadv()); n > 0 { // the command Interests of the readvertiser go nowhere
+			ctx.Probe("readvertise-command-sent")
+		}
+		if fp, ok := readFP[pick]; ok {
+			delete(readFP, pick)
+			if now := table.VerifFibFingerprint(); now != fp && res.Violation == nil {
+				ctx.Probe("fib-changed-under-read-lock")
+				res.Violation = &kit.Violation{Class: "C16/lock-discipline", Key: c.Fib + "/fib-modified-under-read-lock", Step: step,
+					Detail: fmt.Sprintf("the FIB's stored representation changed between task %d entering a read-locked section and leaving it: something wrote to the table while only a shared lock was held (lookups running in parallel would race on it)", pick)}
+				if msg.done {
+					alive[pick] = false
+					nalive--
+				}
+				break
+			}
+		}
+		if !msg.done && msg.tag == "fib.read" {
+			readFP[pick] = table.VerifFibFingerprint()
+			ctx.Probe("fib-read-section-fingerprinted")
+		}
 		if msg.done {
 			inBatch[pick] = false
 			alive[pick] = false
